@@ -36,6 +36,28 @@ func init() {
 	})
 }
 
+// Num: an interface type with a concat function registered for the interface type itself:
+// ConcatItems[Num] must hand the chunks to it (it must not fall back to concatenation by
+// dynamic type).  The function sums Val() over the non-nil chunks and answers with a NumA.
+type Num interface{ Val() int }
+type NumA int
+type NumB struct{ V int }
+
+func (n NumA) Val() int { return int(n) }
+func (n NumB) Val() int { return n.V }
+
+func init() {
+	compose.RegisterStreamChunkConcatFunc(func(items []Num) (Num, error) {
+		s := 0
+		for _, it := range items {
+			if it != nil {
+				s += it.Val()
+			}
+		}
+		return NumA(s), nil
+	})
+}
+
 // usesRegistered: some chunk (at any depth) is of a type registered here
 func usesRegistered(vs []*CV) bool {
 	for _, v := range vs {
